@@ -2,6 +2,8 @@ package main
 
 import (
 	"fmt"
+	"go/token"
+	"strings"
 
 	"golang.org/x/tools/go/ssa"
 )
@@ -125,8 +127,18 @@ func c08(r *Run) {
 			r.ob(key, "flush() otherwise returns what waitFlush() reports", flush, ret, true, "returns waitFlush()", false)
 		case isCallOf(w.MustFn("Exception"))(v):
 			r.ob(key, "error returns are constructed errors", flush, ret, true, "returns Exception(...)", false)
+		case isTriggerValue(v):
+			// a value received from the write trigger and seen to be non-nil: the close error pushed by a close path
+			nonNil := func(c ssa.Value) (bool, bool) {
+				b, ok := c.(*ssa.BinOp)
+				if !ok || (b.Op != token.EQL && b.Op != token.NEQ) || !isNilConst(b.Y) || b.X != v {
+					return false, false
+				}
+				return b.Op == token.NEQ, true
+			}
+			r.guarded(key, "a value taken from the write trigger is returned by flush() itself only when it is an error (the connection was closed meanwhile); a nil taken there is a stale completion and is discarded", flush, ret, nonNil, nil, "guarded by err != nil")
 		default:
-			r.ob(key, "every return of flush() is nil-when-empty, waitFlush(), or an Exception", flush, ret, false, "returns "+shortVal(v), false)
+			r.ob(key, "every return of flush() is nil-when-empty, waitFlush(), a close error taken from the trigger, or an Exception", flush, ret, false, "returns "+shortVal(v), false)
 		}
 	}
 	if nRet < 3 {
@@ -146,6 +158,76 @@ func c08(r *Run) {
 	// rw2r removes write interest before it signals
 	for _, site := range findIns(rw2r, func(i ssa.Instruction) bool { return isCall(i, ro.triggerWrite) }) {
 		r.precedes("C08.R2:rw2r-order", "rw2r removes write interest before signalling the flusher (which may re-arm it at once)", rw2r, site, func(i ssa.Instruction) bool { return ro.isControl(i, ro.evRW2R) }, nil, "Control(PollRW2R) dominates triggerWrite")
+	}
+	// Flush (the method) has no success of its own: it returns an Exception (closed, concurrent) or what flush() reports -
+	// "nothing new was written" is not "everything was sent" (bytes committed before a timed-out Flush are still unsent)
+	{
+		fm := w.MustFn("(*connection).Flush")
+		n := 0
+		for _, ins := range allIns(fm) {
+			ret, ok := ins.(*ssa.Return)
+			if !ok || len(ret.Results) != 1 {
+				continue
+			}
+			n++
+			okv := true
+			for _, v := range resultValues(ret, 0) {
+				if isNilConst(v) {
+					okv = false
+				}
+			}
+			r.ob(fmt.Sprintf("C08.R2:Flush-has-no-success-of-its-own#%d", n), "Flush returns nil only through flush(): no early 'nothing to do' success - data committed before an earlier Flush timed out is still in the buffer and must be sent by the retry", fm, ret, okv, "returns flush() or an Exception", true)
+		}
+		// after write interest was armed every signal is the answer to this Flush: waitFlush uses every value it receives from the
+		// trigger (a receive whose value is dropped would throw the completion, or the close error, away)
+		for _, ins := range allIns(waitFlush) {
+			var val ssa.Value
+			switch x := ins.(type) {
+			case *ssa.UnOp:
+				if x.Op == token.ARROW && strings.HasSuffix(pathOf(x.X), ".writeTrigger") {
+					val = x
+				}
+			case *ssa.Select:
+				for _, st := range x.States {
+					if strings.HasSuffix(pathOf(st.Chan), ".writeTrigger") {
+						val = x
+					}
+				}
+			}
+			if val == nil {
+				continue
+			}
+			used := false
+			if sel, isSel := val.(*ssa.Select); isSel {
+				for _, ref := range *sel.Referrers() {
+					if e, ok := ref.(*ssa.Extract); ok && e.Index >= 2 && len(*e.Referrers()) > 0 {
+						used = true
+					}
+				}
+			} else if len(*val.Referrers()) > 0 {
+				used = true
+			}
+			r.ob("C08.R2:waitFlush-uses-every-signal:"+siteKey(w, ins), "every value waitFlush receives from the write trigger is used (returned): the trigger was armed for this Flush, dropping a value drops its completion or the close error", waitFlush, ins, used, "the received value is used", true)
+		}
+	}
+	// a completion left over from a Flush that gave up (signalled between its last look at the one-slot trigger and its
+	// PollRW2R) is taken out before write interest is armed again - the next Flush would otherwise take it for its own
+	{
+		isDrain := func(i ssa.Instruction) bool {
+			sel, ok := i.(*ssa.Select)
+			if !ok || sel.Blocking {
+				return false
+			}
+			for _, st := range sel.States {
+				if strings.HasSuffix(pathOf(st.Chan), ".writeTrigger") {
+					return true
+				}
+			}
+			return false
+		}
+		for _, arm := range findIns(flush, func(i ssa.Instruction) bool { return ro.isControl(i, ro.evR2RW) }) {
+			r.precedes("C08.R3:stale-completion-cleared-before-arming", "before flush() arms write interest it empties the one-slot write trigger (non-blocking receive): a completion signalled after an earlier Flush had already timed out must not complete this one with its data unsent", flush, arm, isDrain, nil, "non-blocking receive on writeTrigger dominates Control(PollR2RW)")
+		}
 	}
 	// ... and it always signals: the flusher parked in waitFlush has no other wake-up on the success path
 	r.mustPass("C08.R2:rw2r-always-signals", "rw2r wakes the parked flusher on every path (the poller calls it when the output buffer was drained; nothing else completes a waiting Flush successfully)", rw2r, nil, []Start{Entry(rw2r)}, func(i ssa.Instruction) bool { return isCall(i, ro.triggerWrite) }, nil, nil, "triggerWrite(nil) on every path")
@@ -239,7 +321,10 @@ func sendCountRules(r *Run, prefix string) {
 	outputAck := w.MustFn("(*connection).outputAck")
 	sendmsg := w.MustFn("sendmsg")
 	isOutM := func(m string) func(ssa.Instruction) bool {
-		return func(i ssa.Instruction) bool { x, ok := callOnField(i, "connection", "outputBuffer"); return ok && x == m }
+		return func(i ssa.Instruction) bool {
+			x, ok := callOnField(i, "connection", "outputBuffer")
+			return ok && x == m
+		}
 	}
 	// flush: Skip(n) with n = sendmsg's first result, guarded n > 0, then Release
 	var send *ssa.Call
@@ -328,4 +413,30 @@ func resolveParamIn(v ssa.Value, caller *ssa.Function) []ssa.Value {
 		return []ssa.Value{v}
 	}
 	return out
+}
+
+// isTriggerValue: v is the value received from connection.writeTrigger by a (non-)blocking receive.
+func isTriggerValue(v ssa.Value) bool {
+	switch x := v.(type) {
+	case *ssa.UnOp:
+		return x.Op == token.ARROW && strings.HasSuffix(pathOf(x.X), ".writeTrigger")
+	case *ssa.Extract:
+		if sel, ok := x.Tuple.(*ssa.Select); ok {
+			for _, st := range sel.States {
+				if strings.HasSuffix(pathOf(st.Chan), ".writeTrigger") {
+					return true
+				}
+			}
+		}
+	case *ssa.TypeAssert:
+		return isTriggerValue(x.X)
+	case *ssa.Phi:
+		for _, e := range x.Edges {
+			if !isTriggerValue(e) {
+				return false
+			}
+		}
+		return len(x.Edges) > 0
+	}
+	return false
 }
